@@ -83,11 +83,11 @@ func sinkOf(cs engine.CallSite) *SinkCall {
 	if rn == nil {
 		return nil
 	}
-	k := kindOf(callee.Name())
+	k := kindOf(engine.ShortName(callee))
 	if k == "" {
 		return nil
 	}
-	withCtx := strings.HasSuffix(callee.Name(), "Context")
+	withCtx := strings.HasSuffix(engine.ShortName(callee), "Context")
 	off := 1 // receiver
 	if withCtx {
 		off = 2
@@ -195,7 +195,7 @@ func BuildIndex(p *engine.Prog, funcs []*ssa.Function) *Index {
 				if cs.Common().IsInvoke() {
 					via = cs.Common().Method.Name()
 				} else {
-					via = cs.Common().StaticCallee().Name()
+					via = engine.ShortName(cs.Common().StaticCallee())
 				}
 				out = append(out, use{cs: cs, sink: s, via: via})
 				continue
